@@ -14,8 +14,9 @@ EXPLANATION = ("C02.1 language inclusion printer <= parser on bounded sentences:
                "encode() methods by abstract interpretation, its guarded productions are instantiated for every constructor "
                "shape the parse actions can build, and each sentence is tested for membership in a relaxed CFG reading of "
                "the pyparsing grammar (a superset of the real parser's language, so every alarm is a certain rejection). "
-               "C02.2 encode reads every structural field; C02.3 both parser entry points consume the whole input; C02.4 "
-               "cache keys / state labels / parent query derive from encode(). NOT decided: structural identity of the "
+               "C02.2 encode reads every structural field; C02.3 both parser entry points consume the whole input; C02.5 "
+               "token-level canonicalisation premises. (The 'identity = canonical text' clause of the design was withdrawn from "
+               "C02: it is the reason the property matters, not a necessary condition of it; it lives in C05.6 / C09.1b / C18.2.) NOT decided: structural identity of the "
                "re-parse for every accepted string.")
 P = "liquer.parser"
 NODE_CLASSES = ["Query", "TransformQuerySegment", "ResourceQuerySegment", "SegmentHeader", "ActionRequest",
@@ -664,7 +665,6 @@ def run(chk):
     rule_printer_subset_parser(chk, "C02.1")
     rule_encode_reads_fields(chk, "C02.2")
     rule_parse_all(chk, "C02.3")
-    rule_identity_is_canonical(chk, "C02.4")
     rule_token_canonicalisation(chk, "C02.5")
     chk.assumptions += ["relaxed CFG reading of the pyparsing grammar accepts a superset of the real parser's language "
                         "(ordered choice -> union, greedy -> any split, look-ahead -> epsilon)",
